@@ -91,7 +91,17 @@ fn closure<T: Sc>(id: i64, mb: Arc<Misbehave>, f: impl Fn(T, &[T]) -> T + Send +
 }
 
 pub fn build_coded<T: Sc>(spec: &CodedSpec, alpha0: &[f64], mb: &Arc<Misbehave>) -> Result<SeparableModel<T>, String> {
+    build_coded_opts(spec, alpha0, mb, false)
+}
+
+/// `guess_first`: the initial parameters are supplied directly after the last function/derivative call
+/// (while the builder is still building that function) instead of at the end
+pub fn build_coded_opts<T: Sc>(spec: &CodedSpec, alpha0: &[f64], mb: &Arc<Misbehave>, guess_first: bool) -> Result<SeparableModel<T>, String> {
     let mut b = SeparableModelBuilder::<T>::new(spec.names.clone());
+    if (spec.x.len() + spec.names.len()) % 3 == 0 {
+        // a decoy grid first: the independent variable supplied last is the one that counts
+        b = b.independent_variable(crate::sc::dvec::<T>(&spec.x.iter().map(|v| 0.5 * v + 1.25).collect::<Vec<f64>>()));
+    }
     for (j, f) in spec.funcs.iter().enumerate() {
         if f.params.is_empty() {
             let mbc = mb.clone();
@@ -117,6 +127,13 @@ pub fn build_coded<T: Sc>(spec: &CodedSpec, alpha0: &[f64], mb: &Arc<Misbehave>)
                 b = add_deriv(b, f.params[q].clone(), k, closure::<T>((j * 16 + 1 + q) as i64, mb.clone(), move |x, a| code_deriv::<T>(j, q, x, a)));
             }
         }
+    }
+    if guess_first {
+        return b
+            .initial_parameters(alpha0.iter().map(|v| T::of(*v)).collect())
+            .independent_variable(crate::sc::dvec::<T>(&spec.x))
+            .build()
+            .map_err(|e| format!("{e:?}"));
     }
     b.independent_variable(crate::sc::dvec::<T>(&spec.x))
         .initial_parameters(alpha0.iter().map(|v| T::of(*v)).collect())
